@@ -80,6 +80,9 @@ RowsOK(e) ==
   /\ \A k \in 1..(Len(r) - 1) : r[k] <= r[k + 1]
   /\ r[Len(r)] = e.iterations
   /\ e.parsed.footer = e.status
+  \* the step column shows dashes on the rows of iteration 0 (no step has been taken) and a figure on every other row
+  /\ Len(e.parsed.step_dashes) = Len(r)
+  /\ \A k \in 1..Len(r) : e.parsed.step_dashes[k] <=> (r[k] = 0)
 
 \* the figures in the last line agree with the returned solution (to print precision)
 LastRowOK(e) ==
@@ -88,6 +91,7 @@ LastRowOK(e) ==
   /\ Within(w.pres, w.pres_lo, w.pres_hi) /\ Within(w.dres, w.dres_lo, w.dres_hi)
   /\ ~w.infeas => (Within(w.pcost, w.pcost_lo, w.pcost_hi) /\ Within(w.dcost, w.dcost_lo, w.dcost_hi))
   /\ Within(w.gap, w.gap_lo, w.gap_hi)                    \* the gap column is the smaller of the absolute and the relative gap
+  /\ ~w.step_dashes => Within(w.step, w.step_lo, w.step_hi) \* the step column is the length of the last step (0 when none was taken)
 
 CaseOK(e) ==
   /\ e.same_stream /\ e.same_file /\ e.len_buffer > 0
